@@ -102,6 +102,8 @@ func readKnownFindings() []knownFinding {
 
 var propOfLabel = regexp.MustCompile(`^(C[0-9]{2,3})\.`)
 
+var sweepOnlyContractKind = map[string]bool{"post": true, "step": true, "inv-entry": true, "inv-keep": true, "objinv": true, "dec": true, "returns": true}
+
 func oblInProp(o *Obl, prop string, fnProps []string) bool {
 	has := false
 	for _, p := range fnProps {
@@ -338,6 +340,21 @@ func cmdCheck(args []string) {
 			}
 		}
 	}
+	// automatic invariant candidates recorded as proved in any property's baseline (a function's candidates are
+	// proved under the property that owns its contract and used as assumptions by the sweeps that reach it)
+	allClaimedAutos := map[string]bool{}
+	if fs, err := filepath.Glob(filepath.Join(verifDir, "baseline", "*.claimed")); err == nil {
+		for _, f := range fs {
+			if strings.Contains(filepath.Base(f), ".thorough.") && !thorough {
+				continue
+			}
+			for name := range readList(f) {
+				if strings.Contains(name, ":auto:") {
+					allClaimedAutos[name] = true
+				}
+			}
+		}
+	}
 	kfs := readKnownFindings()
 	known := map[string]knownFinding{}
 	for _, k := range kfs {
@@ -364,7 +381,25 @@ func cmdCheck(args []string) {
 			if j.fn == nil {
 				res = &FuncResult{Key: j.key, ContractErr: "contract names a function that does not exist: " + j.key}
 			} else {
-				res = P.verifyFunc(j.fn, thorough)
+				if *writeBaseline || *triage {
+					res = P.verifyFunc(j.fn, thorough)
+				} else {
+					// candidates pinned by the baseline: "<fn>:inv-keep:loopN:auto:<cand>#k" -> "loopN:auto:<cand>"
+					pinned := map[string]bool{}
+					pre := shortKey(j.key) + ":inv-"
+					for name := range allClaimedAutos {
+						if strings.HasPrefix(name, pre) && strings.Contains(name, ":auto:") {
+							if i := strings.Index(name, ":loop"); i >= 0 {
+								c := name[i+1:]
+								if k := strings.LastIndex(c, "#"); k >= 0 {
+									c = c[:k]
+								}
+								pinned[c] = true
+							}
+						}
+					}
+					res = P.verifyFuncPinned(j.fn, thorough, pinned)
+				}
 			}
 			<-gen
 			tg := time.Since(tf).Seconds()
@@ -373,6 +408,20 @@ func cmdCheck(args []string) {
 			vs := P.solveFuncBudget(solver, res, thorough, func(o *Obl) bool {
 				if !oblInProp(o, prop, j.props) {
 					return false
+				}
+				// a function that is in this property only because the sweep reaches it, and that carries a contract
+				// of another property: its contract-kind obligations (invariants, postconditions, ...) are decided
+				// under that property; the sweep takes its panic-freedom obligations only
+				if j.sweep && res.Spec != nil && !o.Cover && sweepOnlyContractKind[o.Kind] {
+					own := false
+					for _, sp := range res.Spec.Props {
+						if sp == prop {
+							own = true
+						}
+					}
+					if !own {
+						return false
+					}
 				}
 				// `safety Cnn`: the function's unlabelled (panic-freedom) obligations are accounted to the sweep
 				// of that property only; under the other properties only its labelled clauses are checked
@@ -416,7 +465,7 @@ func cmdCheck(args []string) {
 					}(v)
 				}
 				wg2.Wait()
-			} else if !thorough {
+			} else {
 				// a claimed obligation that is not discharged is retried once with four
 				// times the budget and every stage before it is reported
 				pat := *solver
@@ -713,6 +762,12 @@ func cmdCheck(args []string) {
 		}
 		switch parts[1] {
 		case "post", "step", "inv-entry", "inv-keep", "objinv", "dec":
+			if *writeBaseline && thorough {
+				// writing the thorough baseline: an automatic candidate of the quick baseline that the thorough
+				// search did not keep is undecided in the thorough tier, not a violation
+				baseUndecided = append(baseUndecided, n+"\tnot generated in the thorough tier")
+				continue
+			}
 			report(&Obl{Name: n, Kind: parts[1]}, nil, "claimed contract obligation is no longer generated (the code it was written for changed shape)", nil)
 			nObl++
 		}
